@@ -169,6 +169,14 @@ pub fn programs() -> Vec<Program> {
         v.push(p);
     }
     {
+        // the sweeper is releasing an expired key while a client deletes it and puts it again: whatever the order,
+        // the weight released and the store entry removed must belong to the same incarnation
+        let mut p = base("{tick} sweeping k||delete(k);put(k) (k expired, unswept)", 10);
+        p.init = vec![put_ttl(1, 2, 1_000), Op::Advance { ms: 3_000 }];
+        p.threads = vec![vec![Op::Tick], vec![Op::Delete { k: 1 }, Op::Await { call: 0 }, put(1, 3)]];
+        v.push(p);
+    }
+    {
         // the key is being swept while its weight is updated
         let mut p = base("{clock;tick}||upsert(k,weight)", 10);
         p.init = vec![put_ttl(1, 4, 1_000), put(2, 1)];
